@@ -460,7 +460,13 @@ def signature(case, obs, reason):
         if len(o) > 1 and str(o[1]).startswith("HARNESS:"):
             return "harness"
         kind = ":".join(str(x) for x in o[:2])
-        return (f"merge:{merge_cause(case)}:crash:{kind}" if merge else f"crash:{kind}")
+        if not merge:
+            return f"crash:{kind}"
+        cause = merge_cause(case)
+        if cause == "other" and kind == "raise:AssertionError" and any(
+                _has(c, lambda x: x["k"] == "leaf" and x["d"]["t"] == "list") for _, c, _ in case["forest"]):
+            return "merge:list-default-dealt:crash:raise:AssertionError"                      # DESIGN 5 #4, Optional[List[..]] = [..]
+        return f"merge:{cause}:crash:{kind}"
     want = spec_want(case)
     if obs["want"] != want:
         return "harness"
@@ -473,7 +479,7 @@ def signature(case, obs, reason):
             if not merge:
                 return "value:" + _kind(a) + "->" + _kind(b)
             cause = merge_cause(case)
-            if cause == "other" and a.get("t") == "list" and b in a["v"]:
+            if cause == "other" and a.get("t") == "list" and (b in a["v"] or b.get("t") == "list"):
                 return "merge:list-default-dealt"                                             # DESIGN 5 #4
             if cause == "optional-member" and a.get("t") == "none" and b.get("t") == "dc":
                 return "merge:optional-member:None-comes-back-as-instance"
@@ -552,3 +558,74 @@ def to_coq(case, obs):
         return f"mkcase {cfg_coq(case['cfg'])} {forest_coq(case['forest'])} {ob}"
     except L.OutOfScope:
         return f"mkcase {cfg_coq(case['cfg'])} [] (Ok [])"
+
+
+# --------------------------------------------------------------------------------------------------
+# shrinking: simpler configuration, fewer destinations, no inheritance, fewer fields (a class is identified by its name)
+
+
+def _map_case(case, fcls, finst):
+    def cls(c):
+        c2 = dict(c, fields=[fld(f) for f in c["fields"]])
+        return fcls(c2)
+
+    def fld(f):
+        if f["k"] == "leaf":
+            return f
+        f2 = dict(f, cls=cls(f["cls"]))
+        if not isinstance(f["d"], str):
+            f2["d"] = inst(f["d"])
+        return f2
+
+    def inst(v):
+        if v.get("t") != "dc":
+            return v
+        return finst(dict(v, v=[[n, inst(x)] for n, x in v["v"]]))
+
+    return dict(case, forest=[[d, cls(c), (inst(i) if i is not None else None)] for d, c, i in case["forest"]])
+
+
+def _all_classes(case):
+    out = {}
+
+    def walk(c):
+        out.setdefault(c["c"], c)
+        for f in c["fields"]:
+            if f["k"] == "nest":
+                walk(f["cls"])
+
+    for _, c, _ in case["forest"]:
+        walk(c)
+    return out
+
+
+def shrink(case):
+    cfg = case["cfg"]
+    for k, v in (("gen", "FLAT"), ("nm", "DEFAULT"), ("dash", "AUTO"), ("api", "parser")):
+        if cfg[k] != v:
+            yield dict(case, cfg=dict(cfg, **{k: v}))
+    f = case["forest"]
+    if len(f) > 1:
+        for j in range(len(f)):
+            yield dict(case, forest=f[:j] + f[j + 1:])
+    for j, (d, c, i) in enumerate(f):
+        if i is not None:
+            yield dict(case, forest=f[:j] + [[d, c, None]] + f[j + 1:])
+    classes = _all_classes(case)
+    if any(c.get("cuts") or c.get("over") for c in classes.values()):
+        yield _map_case(case, lambda c: dict(c, cuts=[], over=[]), lambda v: v)
+    for cname, c in classes.items():
+        for fl in c["fields"]:
+            if len(c["fields"]) > 1 or fl["k"] == "nest":
+                fn = fl["n"]
+                yield _map_case(case,
+                                lambda c2, cname=cname, fn=fn: (dict(c2, fields=[x for x in c2["fields"] if x["n"] != fn], cuts=[], over=[])
+                                                                if c2["c"] == cname else c2),
+                                lambda v, cname=cname, fn=fn: (dict(v, v=[p for p in v["v"] if p[0] != fn]) if v["c"] == cname else v))
+    for cname, c in classes.items():
+        for fl in c["fields"]:
+            if fl["k"] == "nest" and not isinstance(fl["d"], str):
+                fn = fl["n"]
+                yield _map_case(case,
+                                lambda c2, cname=cname, fn=fn: (dict(c2, fields=[(dict(x, d="fac") if x["n"] == fn else x) for x in c2["fields"]])
+                                                                if c2["c"] == cname else c2), lambda v: v)
